@@ -89,6 +89,16 @@ func NewMerger(less func(a, b *sam.Record) bool, src ...*Reader) (*Merger, error
 	case sam.QueryName:
 		m.less = (*sam.Record).LessByName
 	case sam.Coordinate:
+		// Each source is sorted by the reference order of its own
+		// header; the merge is sorted only if the merged header
+		// keeps that order.
+		for _, links := range m.refLinks {
+			for j := 1; j < len(links); j++ {
+				if links[j].ID() < links[j-1].ID() {
+					return nil, errors.New("bam: reference order of a source is not kept by the merged header")
+				}
+			}
+		}
 		m.less = (*sam.Record).LessByCoordinate
 	}
 	for i, r := range src {
